@@ -526,6 +526,7 @@ func (tf *transformer) saveGoAsmNames() error {
 	if err != nil {
 		return err
 	}
+	verifEvent("asmnames-put", "pkg", tf.curPkg.ImportPath, "key", goAsmCacheID(tf.curPkg.GarbleActionID), "n", len(nameMap))
 	return fsCache.PutBytes(goAsmCacheID(tf.curPkg.GarbleActionID), data)
 }
 
@@ -556,6 +557,7 @@ func loadGoAsmNames(lpkg *listedPackage) map[string]string {
 	if _, err := nameMap.UnmarshalMsg(data); err != nil {
 		return nil
 	}
+	verifEvent("asmnames-get", "pkg", lpkg.ImportPath, "n", len(nameMap))
 	return nameMap
 }
 
@@ -698,11 +700,13 @@ func (tf *transformer) writeSourceFile(basename, obfuscated string, content []by
 	if err := writeFileExclusive(dstPath, content); err != nil {
 		return "", err
 	}
+	verifEvent("write-source", "pkg", tf.curPkg.ImportPath, "file", basename, "path", dstPath)
 	return dstPath, nil
 }
 
 func (tf *transformer) transformCompile(args []string) ([]string, error) {
 	flags, paths := splitFlagsFromFiles(args, ".go")
+	verifEvent("compile-start", "pkg", tf.curPkg.ImportPath, "obfuscate", tf.curPkg.ToObfuscate, "key", tf.curPkg.GarbleActionID)
 	var debugArtifacts cachedDebugArtifacts
 	if flagDebugDir != "" {
 		debugArtifacts.SourceFiles = make(map[string][]byte)
@@ -1323,6 +1327,7 @@ func (tf *transformer) obfuscatedObjectName(obj types.Object) (string, bool) {
 				panic("could not find struct for field " + name)
 			}
 			newName := hashWithStruct(strct, originObj)
+			verifNameEvent("field", path, name, newName)
 			if flagDebug { // TODO(mvdan): remove once https://go.dev/issue/53465 if fixed
 				log.Printf("%s %q hashed with struct fields to %q", debugName, name, newName)
 			}
@@ -1358,6 +1363,7 @@ func (tf *transformer) obfuscatedObjectName(obj types.Object) (string, bool) {
 	}
 
 	newName := hashWithPackage(lpkg, name)
+	verifNameEvent(debugName, path, name, newName)
 	// TODO: probably move the debugf lines inside the hash funcs
 	if flagDebug { // TODO(mvdan): remove once https://go.dev/issue/53465 if fixed
 		log.Printf("%s %q hashed with %x… to %q", debugName, name, lpkg.GarbleActionID[:4], newName)
